@@ -780,13 +780,23 @@ func C12(x *Idx) []V {
 				if d.On != p {
 					continue
 				}
-				q := aliveAt[sp.Name]
-				if q == nil {
-					continue
+				// every replica of a replicated dependent counts
+				names := []string{sp.Name}
+				if sp.Replicas >= 2 {
+					names = names[:0]
+					for r := 0; r < sp.Replicas; r++ {
+						names = append(names, f("%s-%0*d", sp.Name, len(f("%d", sp.Replicas)), r))
+					}
 				}
-				// the dependent was running when the shutdown began and is still alive now
-				if q.Exit < 0 || q.Exit > i {
-					out = append(out, V{"C12", "dependency-stopped-first", f("%s received its stop signal at seq %d while its dependent %s (inst %d) was still alive", p, i, sp.Name, q.Inst)})
+				for _, dn := range names {
+					q := aliveAt[dn]
+					if q == nil {
+						continue
+					}
+					// the dependent was running when the shutdown began and is still alive now
+					if q.Exit < 0 || q.Exit > i {
+						out = append(out, V{"C12", "dependency-stopped-first", f("%s received its stop signal at seq %d while its dependent %s (inst %d) was still alive", p, i, dn, q.Inst)})
+					}
 				}
 			}
 		}
